@@ -685,7 +685,13 @@ def _tiles():
 def _p_is_unextendible_product_basis(ctx, r, rng):
     fn = _fn("is_unextendible_product_basis")
     kind = r % 3
-    if kind == 0:
+    if r % 4 == 3:
+        # far too few vectors: one or two random product vectors among three to five parties can always be extended
+        dims = [[2, 2, 2], [3, 3, 3], [2, 2, 2, 2], [2, 3, 2], [2, 2, 2, 2, 2]][(r // 4) % 5]
+        count = 1 if len(dims) < 5 or r % 8 == 3 else 2
+        vecs = [ref.kron_all([gen.unit(rng, d_, bool(r % 2)).reshape(-1, 1) for d_ in dims]).reshape(-1) for _ in range(count)]
+        want, name = False, f"few-random-product-vectors[{count}-of-{len(dims)}-parties]"
+    elif kind == 0:
         vecs, dims, want, name = _tiles(), [3, 3], True, "tiles"
         ua, ub = gen.haar(rng, 3), gen.haar(rng, 3)
         if r % 2:
